@@ -178,3 +178,41 @@ Proof.
   rewrite (encode_no_crlf Url false (length l)); auto.
   apply (decode_partial_q_encode Url (length l)); auto.
 Qed.
+
+(* length and alphabet of unpadded encodings (PKCE verifier, RFC 7636) *)
+Lemma encode_length_mult3 a padded : forall k l, length l = (3 * k)%nat -> length (encode a padded l) = (4 * k)%nat.
+Proof.
+  induction k as [|k IH]; intros l H.
+  - destruct l; [reflexivity|simpl in H; lia].
+  - destruct l as [|x [|y [|z l']]]; try (simpl in H; lia).
+    cbn [encode length]. rewrite (IH l'); [lia|]. simpl in H. lia.
+Qed.
+
+Definition is_b64url_nopad (c : N) : bool := is_alnum c || (c =? 45) || (c =? 95).
+
+Lemma enc_char_nopad v : v < 64 -> is_b64url_nopad (enc_char Url v) = true.
+Proof.
+  intro H. apply in_sextets in H.
+  assert (A : forallb (fun v => is_b64url_nopad (enc_char Url v)) sextets = true) by (vm_compute; reflexivity).
+  rewrite forallb_forall in A. exact (A v H).
+Qed.
+
+Lemma rawurl_encode_chars : forall n l, (length l <= n)%nat -> is_bytes l ->
+  forallb is_b64url_nopad (encode Url false l) = true.
+Proof.
+  induction n as [|n IH]; intros l Hn Hb.
+  - destruct l; [reflexivity|simpl in Hn; lia].
+  - destruct l as [|x [|y [|z l']]].
+    + reflexivity.
+    + inversion Hb as [|? ? Hx _]; subst.
+      destruct (sextet_bounds x 0 0 Hx) as (B0 & _ & _ & _ & B4 & _); try lia.
+      cbn [encode app forallb]. rewrite (enc_char_nopad _ B0), (enc_char_nopad _ B4). reflexivity.
+    + inversion Hb as [|? ? Hx Hb1]; subst. inversion Hb1 as [|? ? Hy _]; subst.
+      destruct (sextet_bounds x y 0 Hx Hy) as (B0 & B1 & _ & _ & _ & B5); try lia.
+      cbn [encode app forallb]. rewrite (enc_char_nopad _ B0), (enc_char_nopad _ B1), (enc_char_nopad _ B5). reflexivity.
+    + inversion Hb as [|? ? Hx Hb1]; subst. inversion Hb1 as [|? ? Hy Hb2]; subst.
+      inversion Hb2 as [|? ? Hz Hb3]; subst.
+      destruct (sextet_bounds x y z Hx Hy Hz) as (B0 & B1 & B2 & B3 & _ & _).
+      cbn [encode forallb]. rewrite (enc_char_nopad _ B0), (enc_char_nopad _ B1), (enc_char_nopad _ B2), (enc_char_nopad _ B3).
+      rewrite IH; [reflexivity| simpl in Hn; lia | exact Hb3].
+Qed.
